@@ -20,7 +20,10 @@ CLAIMS = {
             "are used only as a placement-new address or through a cast to T* (never copied/swapped/filled as bytes); a value assignment "
             "does not read its by-reference argument after destroying the old payload; Any: holder dereferences dominated by a "
             "validity test, clone-on-copy, copy assignment reads (and clones) its source before it releases the payload it owns "
-            "(the source may live inside that payload), get<T> guarded by the exact-type test and otherwise throwing std::runtime_error. "
+            "(the source may live inside that payload), an Any source of every value category (lvalue, const lvalue, rvalue, const rvalue) "
+            "is copied by the copy members and no holder is instantiated for the payload type Any, get<T> guarded by the exact-type test and "
+            "otherwise throwing std::runtime_error, and the type-name helper behind toString() / the mismatch message hands "
+            "abi::__cxa_demangle only a null or malloc()ed buffer. "
             "These are necessary structural conditions of the property decided on every path; value equality of what is "
             "returned is not decided.",
             "Trusted: clang 14 front end/CFG; payload types behave as values; *this and the assignment argument are "
@@ -43,7 +46,7 @@ CLAIMS['C16'] = ('proof',
     "(a structural part of the faithfulness clause); a token [begin, end) consists of exactly the bytes of its scan loop (neither the "
     "delimiter that ends the scan nor a consumed delimiter the scan would stop at, no scanned byte lost), children are only appended in "
     "parse order and a property is stored under the name/value pair one parseProp call produced; the backward trim of a text content removes whitespace bytes only (its "
-    "condition evaluated for every byte value, plain char signed); writes through self-allocated buffers stay inside them. Obligations = one per "
+    "condition evaluated for every byte value, plain char signed); wherever one comment is accepted a run of comments is (after a skipped comment the skipper is tried again before any other parse action, helpers followed); a read loop in readXML has an exit that does not depend on fread delivering bytes; writes through self-allocated buffers stay inside them. Obligations = one per "
     "analysed function and clause; all must be discharged. The faithfulness clause (returned tree equals the generating "
     "tree) is a value-level property and is not decided.",
     "Trusted: clang 14 CFG; isalpha/isdigit/isspace are false at NUL; the abstract transfer functions of the rule engine "
